@@ -281,6 +281,17 @@ func c08Direct(c *Ctx) {
 		pop := genetics.VerifNewEmptyPopulation(1000, 1000)
 		mon := &specMonitor{}
 		mon.install(c, o)
+		before := make([]uint64, len(orgs))
+		for i, og := range orgs {
+			before[i] = snapGenome(og.Genotype).fingerprint()
+		}
+		defer func(orgs []*genetics.Organism) {
+			for i, og := range orgs {
+				if snapGenome(og.Genotype).fingerprint() != before[i] && !c.Violated() {
+					c.Violate("genome-modified", map[string]interface{}{"threshold": o.CompatThreshold}, "speciation modified the genome of organism #%d of the batch", i)
+				}
+			}
+		}(orgs)
 		cut := len(orgs) / 2
 		if r.Intn(3) == 0 {
 			cut = len(orgs)
